@@ -9,6 +9,25 @@ _MISSING = object()
 STORED = ("x", "y")
 
 
+
+class _Any(object):
+    """a search value that compares equal to everything (like unittest.mock.ANY): selects the nodes that have the attribute"""
+
+    def __eq__(self, other):
+        return True
+
+    def __ne__(self, other):
+        return False
+
+    def __hash__(self):
+        return 7
+
+    def __repr__(self):
+        return "<ANY>"
+
+
+_ANY = _Any()
+
 def canon_count_error(e):
     msg = str(e)
     nums = [int(x) for x in NUM.findall(msg)[:2]]
@@ -39,12 +58,13 @@ def _thunk(mod, start, q):
             r = mod.find(start, **kw)
             return {"ok": None if r is None else r.label}
         return find
+    value = _ANY if q.get("value") == "<ANY>" else q.get("value")
     if fn == "findall_by_attr":
         return lambda: {"ok": [n.label for n in mod.findall_by_attr(
-            start, q["value"], name=q["name"], maxlevel=q["maxlevel"], mincount=q["mincount"], maxcount=q["maxcount"])]}
+            start, value, name=q["name"], maxlevel=q["maxlevel"], mincount=q["mincount"], maxcount=q["maxcount"])]}
     if fn == "find_by_attr":
         def find_by_attr():
-            r = mod.find_by_attr(start, q["value"], name=q["name"], maxlevel=q["maxlevel"])
+            r = mod.find_by_attr(start, value, name=q["name"], maxlevel=q["maxlevel"])
             return {"ok": None if r is None else r.label}
         return find_by_attr
     raise ValueError(fn)
